@@ -1,7 +1,7 @@
 (* C08 - Editors are immutable values; operations are deterministic. *)
 From Coq Require Import List Bool ZArith Lia.
 Import ListNotations.
-From Rosed Require Import Base.Res Base.ListX Gem.Segment Model.Table Model.Options Model.Editor Model.Ops Model.Hist Proofs.C08P.
+From Rosed Require Import Base.Res Base.ListX Gem.Segment Model.Table Model.Options Model.Editor Model.Ops Model.Hist Proofs.C08P Gem.GString Gem.GHeap Gem.GSpec Proofs.C19H.
 Open Scope Z_scope.
 
 (* whatever sequence of operations is run over a pool of Editors, every Editor obtained earlier is still what it was *)
@@ -23,3 +23,15 @@ Theorem C08_siblings : forall p s1 e1 sel1 s2 e2 sel2 t1 t2,
   Ok (Ed (firstn (Z.to_nat s2) (e_text p) ++ t2 ++ skipn (Z.to_nat e2) (e_text p)) (e_opts p) (e_ref p)).
 Proof. exact siblings_independent. Qed.
 Print Assumptions C08_siblings.
+
+(* the grapheme strings underneath the Editors: over every history of New / Zero / copy / Add / Sub /
+   SetCharAt / Repeat / CharAt / Len / Runes / GraphemeIndexes on a heap of values that share
+   lazily filled cache cells (copies share a cell; Add, Sub, SetCharAt and Repeat build a new
+   value), every value shows at every step what the pure pool shows, in which a value is its
+   code points and nothing is ever updated - an operation never changes a value obtained earlier,
+   it only adds one (C19_history, C19_operands_kept restated for this property's anchors) *)
+Theorem C08_gem_values_immutable : forall (C : Classifier) ops, Forall in_c19 ops ->
+  map (fun so => (view (fst so), snd so)) (grun (heap0, []) ops) = prun [] ops /\
+  (forall pool o, fst (pstep pool o) = pool \/ exists x, fst (pstep pool o) = pool ++ [x]).
+Proof. intros C ops Hops. split; [exact (proj1 (history_from_start ops Hops))|exact pstep_appends]. Qed.
+Print Assumptions C08_gem_values_immutable.
